@@ -11,15 +11,16 @@ from .common import Obligation
 PID = 'C11'
 
 META = {
-    'functions_encoded': ['pydl.pydlspec2d.spec2d.combine1fiber (1-D)', 'pydl.pydlspec2d.spec2d.aesthetics', 'pydl.pydlutils.image.djs_maskinterp',
+    'functions_encoded': ['pydl.pydlspec2d.spec2d.combine1fiber (1-D, and stacks of two exposures)', 'pydl.pydlspec2d.spec2d.aesthetics', 'pydl.pydlutils.image.djs_maskinterp',
                           'pydl.smooth.smooth', 'pydl.pydlspec2d.spec1d.preprocess_spectra (shift arithmetic)'],
     'stubs': ['iterfit -> ARBITRARY fit outcome: fresh symbolic flux for every evaluated pixel, arbitrary (symbolic) evaluation mask, '
               'arbitrary (symbolic) rejection mask, non-zero coefficients', 'numpy.interp by its definition; maskbits cache preset (SPPIXMASK)',
+              'stacks: djs_median (running median over 101 pixels of the variances) -> arbitrary positive value per pixel; fit outcome fixed to "accepts everything"',
               'preprocess_spectra: combine1fiber replaced by a recorder; log10(1+z) evaluated in IEEE double on a concrete z'],
     'assumptions': ['input log-wavelengths increasing; input and output grids are concrete exact rationals; flux and inverse variance symbolic (ivar >= 0)',
                     'floats are exact reals'],
     'outside_bounds': 'the spline fit itself (C08-C10); "finite" (no NaN/inf in exact reals); identity / constant-spectrum accuracy (a statement about the fit); '
-                      'stacked 2-D exposures (running median needs >= 101 pixels per exposure)',
+                      'stacks: more than two exposures, rejection by the fit, the values (as opposed to the zero pattern) of the combined inverse variance',
 }
 
 SPPIXMASK = {'NOPLUG': 0, 'BADSKYCHI': 23, 'NODATA': 24, 'COMBINEREJ': 25, 'REDMONSTER': 28}
@@ -156,6 +157,74 @@ def ob_combine(grid, aest, with_ivar=True, free='both'):
                       bounds='grid %s, every flux / inverse variance / fit outcome' % grid, max_paths=400000, max_seconds=1700)
 
 
+GRIDS2D = {
+    # two exposures with different coverage (offset by whole pixels), common output grid
+    'offset3': ([[F(35000 + i, 10000) for i in range(5)], [F(35003 + i, 10000) for i in range(5)]], [F(35000 + i, 10000) for i in range(8)]),
+    'offset3-shifted': ([[F(35000 + i, 10000) for i in range(5)], [F(35003 + i, 10000) for i in range(5)]],
+                        [F(350003 + 10 * i, 100000) for i in range(8)]),
+    'offset4': ([[F(35000 + i, 10000) for i in range(4)], [F(35004 + i, 10000) for i in range(4)]], [F(35000 + i, 10000) for i in range(8)]),
+}
+
+
+def ob_combine2d(grid):
+    """a stack of two exposures: the fit accepts every pixel it is given (fit outcome fixed), the zero pattern
+    of the second exposure is symbolic, the variance smoothing (running median over 101 pixels) is an
+    arbitrary positive value per pixel."""
+    def fn(ctx):
+        import pydl.pydlspec2d.spec2d as spec2d
+        import pydl.pydlutils.sdss as sdss
+        sdss.maskbits = {'SPPIXMASK': dict(SPPIXMASK)}
+        inl, newl = GRIDS2D[grid]
+        ne, n, m = len(inl), len(inl[0]), len(newl)
+        fl = [[ctx.real('f%d_%d' % (e, i)) for i in range(n)] for e in range(ne)]
+        iv = [[ctx.real('iv%d_%d' % (e, i)) for i in range(n)] for e in range(ne)]
+        for e in range(ne):
+            for v in iv[e]:
+                ctx.add(zt(v) >= (1 if e == 0 else 0))
+        d = {'fn': 'combine2d', 'grid': grid}
+        ctx.detail = d
+        good_in = [[bool(v > 0) for v in row] for row in iv]
+        stub = FitStub(ctx, fixed_masks=True)
+        nmed = [0]
+
+        def median_stub(x, width=None, **kw):
+            out = np.empty(len(x), dtype=object)
+            for i in range(len(x)):
+                v = ctx.real('smoothed%d_%d' % (nmed[0], i))
+                ctx.add(zt(v) > 0)
+                out[i] = v
+            nmed[0] += 1
+            return out
+        saved = (spec2d.iterfit, spec2d.djs_median)
+        spec2d.iterfit, spec2d.djs_median = stub, median_stub
+        try:
+            flux, ivar = spec2d.combine1fiber(symnp.rarray(inl), symnp.rarray(fl), symnp.rarray(newl), objivar=symnp.rarray(iv))
+        finally:
+            spec2d.iterfit, spec2d.djs_median = saved
+        ctx.require(flux.shape == (m,) and ivar.shape == (m,), 'outputs have the length of the new grid', d)
+        fitted_vals = set()
+        for xs, bm in stub.calls:
+            for xv in xs:
+                fitted_vals.add(R.lift(xv).v)
+        accepted = [[good_in[e][i] and inl[e][i] in fitted_vals for i in range(n)] for e in range(ne)]
+        d = dict(d, good_in=good_in, accepted=accepted)
+        for j in range(m):
+            o = R.lift(ivar[j])
+            ctx.require(zt(o) >= 0, 'output inverse variance >= 0', dict(d, j=j))
+            between = False
+            for e in range(ne):
+                for i in range(n - 1):
+                    if inl[e][i] <= newl[j] <= inl[e][i + 1] and accepted[e][i] and accepted[e][i + 1]:
+                        between = True
+                if newl[j] in inl[e] and accepted[e][inl[e].index(newl[j])]:
+                    between = True
+            if not between:
+                ctx.require(zt(o) == 0, 'stack: inverse variance is 0 for an output pixel that does not lie between two adjacent good pixels of any exposure',
+                            dict(d, j=j))
+    return Obligation('combine1fiber stack %s' % grid, fn, bounds='two exposures of grid %s, every flux, every inverse variance (first exposure > 0, '
+                      'second >= 0), every smoothed variance, fit outcome fixed to "all accepted"' % grid, max_paths=400000, max_seconds=1700)
+
+
 def ob_scaling(grid):
     def fn(ctx):
         inl, newl = GRIDS[grid]
@@ -226,6 +295,10 @@ def obligations(tier, seed):
         obs.append(ob_combine(g, None, free='ivzero'))
         obs.append(ob_combine(g, None, free='fit'))
     obs.append(ob_combine('wider6', 'mean', free='ivzero'))
+    obs.append(ob_combine2d('offset3-shifted'))
+    if not q:
+        obs.append(ob_combine2d('offset3'))
+        obs.append(ob_combine2d('offset4'))
     obs.append(ob_combine('same5', 'nothing', with_ivar=False))
     if not q:
         obs.append(ob_combine('shift6', None))
@@ -254,6 +327,46 @@ def replay(rec):
     sdss.maskbits = {'SPPIXMASK': dict(SPPIXMASK)}
     d = rec['detail'] or {}
     inp = rec['inputs'] or {}
+    if d.get('fn') == 'combine2d':
+        inl, newl = GRIDS2D[d['grid']]
+        ne, n, m = len(inl), len(inl[0]), len(newl)
+        x = np.array([[float(v) for v in row] for row in inl])
+        xn = np.array([float(v) for v in newl])
+        fl = np.array([[_f(inp.get('f%d_%d' % (e, i), 1)) for i in range(n)] for e in range(ne)])
+        iv = np.array([[_f(inp.get('iv%d_%d' % (e, i), 1)) for i in range(n)] for e in range(ne)])
+        calls = []
+        nmed = [0]
+
+        def fit_stub(xx, yy, invvar=None, **kw):
+            class S(object):
+                coeff = np.array([1.0])
+
+                def value(self, q):
+                    return np.array([_f(inp.get('spl_' + str(newl[int(np.argmin(np.abs(xn - qv)))]).replace('/', '_'), 0.0)) for qv in q]), \
+                        np.ones(len(q), dtype=bool)
+            calls.append(list(xx))
+            return S(), np.ones(len(xx), dtype=bool)
+
+        def median_stub(v, width=None, **kw):
+            out = np.array([_f(inp.get('smoothed%d_%d' % (nmed[0], i), 1)) for i in range(len(v))])
+            nmed[0] += 1
+            return out
+        saved = (spec2d.iterfit, spec2d.djs_median)
+        spec2d.iterfit, spec2d.djs_median = fit_stub, median_stub
+        try:
+            flux, ivar = spec2d.combine1fiber(x, fl, xn, objivar=iv.copy())
+        finally:
+            spec2d.iterfit, spec2d.djs_median = saved
+        if flux.shape != (m,) or ivar.shape != (m,) or (ivar < 0).any():
+            return True
+        fitted = [v for c in calls for v in c]
+        acc = [[iv[e][i] > 0 and any(abs(x[e][i] - v) < 1e-12 for v in fitted) for i in range(n)] for e in range(ne)]
+        for j in range(m):
+            between = any((inl[e][i] <= newl[j] <= inl[e][i + 1] and acc[e][i] and acc[e][i + 1]) for e in range(ne) for i in range(n - 1)) or \
+                any(newl[j] in inl[e] and acc[e][inl[e].index(newl[j])] for e in range(ne))
+            if not between and abs(ivar[j]) > 1e-9:
+                return True
+        return False
     if d.get('fn') not in ('combine', 'scaling'):
         return False
     inl, newl = GRIDS[d['grid']]
